@@ -466,7 +466,10 @@ impl<'a> View<'a> {
         for o in self.ops.iter().filter(|o| o.target == Some(aidx) && !o.skipped()) {
             if let (Op::Send { id, .. } | Op::ForceSend { id, .. } | Op::Call { id, .. }, true) = (o.inner, o.begin < seq) {
                 let entered = self.cbs_of(a).any(|c| c.id == *id && c.enter < seq);
-                if !entered && !o.err() && !o.abandoned() {
+                // (an operation its client gave up may still have put its message into the
+                // mailbox: if the handler runs later, it had)
+                let enqueued = (!o.err() && !o.abandoned()) || self.cbs_of(a).any(|c| c.id == *id);
+                if !entered && enqueued {
                     return true;
                 }
             }
